@@ -25,6 +25,10 @@ def check(ctx):
     reproject(ctx, P, view)
     capacity(ctx, P, view)
     rate(ctx, P, view)
+    # PS departures are scheduled by the node's serverless end-of-service scan (shared instances): its filters and sentinel tests
+    from . import c02
+    c02.scan_rules(ctx, P)
+    c02.sentinel_tests(ctx, P)
     ctx.assume("no blocking into/out of PS nodes (property's own proviso)")
 
 
@@ -35,13 +39,14 @@ def reproject(ctx, P, view):
         if cls.name != "PSNode":
             ctx.unrecognised("REPROJ: PSNode no longer overrides %s" % m)
             continue
-        w = Walker(P, view, keep=lambda e: (e.kind == "call" and e.d["meth"] == "update_all_service_end_dates") or
+        w = Walker(P, view, keep=lambda e: (e.kind == "call" and e.d["meth"] == "update_all_service_end_dates") or (e.kind == "assign" and e.d.get("local")) or
                    (e.kind == "assign" and (e.d["target"].endswith(".service_start_date") or e.d["target"].endswith(".with_server") or e.d["target"].endswith(".time_left") or e.d["target"].endswith(".date_last_update") or e.d["target"].endswith(".service_time"))),
                    inline=rules.new_helper)
         for st in w.paths_of(cls, fn):
             if st.status == "raise":
                 continue
-            evs = st.events
+            defs = {e.d["target"]: e.d["value"] for e in st.events if e.kind == "assign" and e.d.get("local") and e.d.get("value") not in (None, "?")}
+            evs = [e for e in st.events if not (e.kind == "assign" and e.d.get("local"))]
             starts = [i for i, e in enumerate(evs) if e.kind == "assign" and e.d["target"].endswith(".service_start_date")]
             ups = [i for i, e in enumerate(evs) if e.kind == "call"]
             ob.ok("%s:%s" % (m, len(evs)), "%s: %s" % (m, " -> ".join(x.text[:40] for x in evs)))
@@ -51,7 +56,8 @@ def reproject(ctx, P, view):
                               "the occupancy changes on this path but the end dates of the customers in service are not re-projected afterwards", loc(fn), rules.witness(st))
             for i in starts:
                 tok = evs[i].d["target"][: -len(".service_start_date")]
-                got = {e.d["target"][len(tok) + 1:]: e.d["value"] for e in evs if e.kind == "assign" and e.d["target"].startswith(tok + ".")}
+                from ..scans import _subst
+                got = {e.d["target"][len(tok) + 1:]: _subst(e.d["value"], defs) for e in evs if e.kind == "assign" and e.d["target"].startswith(tok + ".")}
                 want = {"service_start_date": "self.now", "date_last_update": "self.now", "service_time": "self.get_service_time(%s)" % tok, "time_left": "%s.service_time" % tok, "with_server": "True"}
                 for k, v in want.items():
                     if got.get(k) != v:
@@ -92,8 +98,13 @@ def capacity(ctx, P, view):
     if f != ("not", ("lt", "self.number_of_individuals", "self.ps_capacity")):
         ctx.violation(ob, "R5.ps-capacity", "PSNode.begin_service_if_possible_release", unparse(ifs[0].test) if ifs else "?", "ps-capacity-guard",
                       "after a departure a waiting customer starts iff number_of_individuals >= ps_capacity (someone is still waiting)", loc(fn))
-    pick = [s for s in (ifs[0].body if ifs else []) if isinstance(s, ast.Assign) and isinstance(s.targets[0], ast.Name)]
-    got = unparse(pick[0].value).replace(" ", "") if pick else "?"
+    # who starts: the customer whose service_start_date is set on the release path (a local or a helper's parameter is read through)
+    w = Walker(P, view, keep=lambda e: e.kind == "assign" and e.d["target"].endswith(".service_start_date"), inline=rules.new_helper)
+    toks = set()
+    for st in w.paths_of(cls, fn):
+        for e in st.events:
+            toks.add(e.d["target"][: -len(".service_start_date")].replace(" ", "").strip("()"))
+    got = sorted(toks)[0] if len(toks) == 1 else "?" if not toks else "; ".join(sorted(toks))
     ob.ok("fcfs-pick", got)
     if got != "self.all_individuals[self.ps_capacity-1]":
         ctx.violation(ob, "R5.ps-capacity", "PSNode.begin_service_if_possible_release", got, "fcfs-pick", "the next customer to share the server is the first-come-first-served one, all_individuals[ps_capacity - 1]", loc(fn))
@@ -132,6 +143,8 @@ def _cancel(num, den):
 def rate(ctx, P, view):
     ob = ctx.ob("RATE", "update_all_service_end_dates: credited work = dt * threshold / max(k_last, threshold); projected duration = time_left * max(k_next, threshold) / threshold -- inverse rate functions; bookkeeping of period, time_left, occupancies")
     cls, fn = view.method("update_all_service_end_dates")
+    # temporaries that merely name now / the threshold / an occupancy-derived load are read through; the new occupancy keeps its name (its role is checked)
+    fn = rules.inline_stable_locals(fn, keep=lambda k, v: unparse(v).replace(" ", "") in ("min(self.number_of_individuals,self.ps_capacity)", "min(self.ps_capacity,self.number_of_individuals)"))
     asg = {}
     for x in ast.walk(fn):
         if isinstance(x, ast.Assign) and len(x.targets) == 1:
